@@ -189,6 +189,10 @@ def _par_entry(args):
         signal.alarm(0)
         sub.analysed["slowest task s"] = 0
         sub.notes.append((round(_t.time() - t0, 2), str(task)[:80]))
+        if os.environ.get("SPVERIF_DEBUG_OPS"):
+            from . import linear as _lin
+            import sys as _sys
+            print(f"OPS task={str(task)[:60]} ops={_lin.OPS_DONE[0]} t={_t.time() - t0:.1f}", file=_sys.stderr)
     except Exception as e:  # noqa: BLE001 - fail closed in the parent
         signal.alarm(0)
         sub.unknown("ENGINE", "spverif", f"worker task {str(task)[:80]}", f"{type(e).__name__}: {e} | {traceback.format_exc()[-600:]}")
